@@ -296,17 +296,20 @@ impl MemoryPool {
         let mut free_chunks = self.free_chunks.lock()
             .map_err(|e| ZiporaError::resource_busy(format!("Free chunks mutex poisoned: {}", e)))?;
 
+        let mut released: u64 = 0;
         while let Some(chunk_ptr) = free_chunks.pop_front() {
             // Safety: chunk_ptr came from our own allocation, so it's valid for deallocation
             let chunk = unsafe { NonNull::new_unchecked(chunk_ptr) };
             self.deallocate_chunk(chunk);
+            released += self.config.chunk_size as u64;
         }
 
-        // Reset stats
+        // Reset stats: the released chunks no longer count as allocated
         let mut stats = self.stats.write()
             .map_err(|e| ZiporaError::resource_busy(format!("Stats RwLock poisoned: {}", e)))?;
         stats.chunks = 0;
         stats.available = 0;
+        stats.allocated = stats.allocated.saturating_sub(released);
 
         Ok(())
     }
